@@ -56,6 +56,8 @@ def writer_table(run, prog, eng, fi, me):
 
 
 def check(run, prog, tier):
+    from . import model as _model
+    _model.audit(run, prog, 'C01')
     run.explanation = (
         "The writer is reduced to a layout term Pack(format, [field expressions]) ++ payload and compared, "
         "position by position, with the SOME/IP header table (widths from the struct codes, byte order from the "
